@@ -137,7 +137,16 @@ fn metamorphic(ctx: &mut Ctx) {
             for &n in &ns {
                 let w0 = hash_of(kind, &base, n);
                 for k in 0..6 {
-                    let link = if k % 2 == 0 { Link::Ethernet } else { Link::RawIp };
+                    // (a third of the Ethernet variants carry MAC addresses that read like an IP
+                    // header or a loopback family word: the link layer is no part of the identity)
+                    let link = if k % 2 == 1 {
+                        Link::RawIp
+                    } else if r.chance(1, 3) {
+                        let x = [r.u8(), r.u8(), r.u8(), r.u8(), r.u8(), r.u8()];
+                        pkt::lookalike_macs(r.below(6), x)
+                    } else {
+                        Link::Ethernet
+                    };
                     // the TCP pool shards on the source address only: its variants may also change ports
                     let mut idv = id.clone();
                     if kind == PoolKind::Tcp && k >= 3 {
